@@ -208,4 +208,17 @@ theorem canonical_len {seg : List Nat} (h : canonical seg = true) : seg.length %
   obtain ⟨d, _, he⟩ := canonical_eq h
   rw [← he]; exact encode_len d
 
+
+theorem spaceRune_brace (rest : List Nat) : spaceRune (123 :: rest) = 0 := by
+  unfold spaceRune
+  split <;> simp_all <;> omega
+
+theorem json_any (rest : List Nat) : isJWSSerialization (123 :: rest) = true := by
+  have : jsonStart (123 :: rest) = true := by
+    unfold jsonStart trimLeftSpace
+    simp only [List.length_cons, trimLeftFuel, spaceRune_brace]
+    simp
+  unfold isJWSSerialization
+  rw [this]; rfl
+
 end Nuts.C06.Framing
